@@ -10,7 +10,8 @@ EXTENDS Parser, TLC
 AnyVariant == {"-", "exact", "zero", "plus1", "p31", "max"}
 AllKinds == {"b", "t", "s", "m", "a", "c", "r", "R"}
 
-(* the table: one row per finding *)
+(* the table: one row per (finding, outcome it shows as); generated from the outcome classes *)
+(* observed on the pinned tree (quick and thorough tier)                                     *)
 KFTable == {
     [id |-> "C15-KF1", outcome |-> "oom",
      parsers |-> {"complex.meta.array4", "complex.meta.btreemap", "complex.meta.btreeset", "complex.meta.option", "complex.meta.result", "complex.meta.tuple2", "complex.raw.btreemap", "complex.raw.option", "complex.raw.tuple2", "din.reader.lp_bytes", "din.reader.lp_string", "din.reader.read_vec", "din.slice.lp_bytes", "din.slice.lp_string", "din.slice.read_string", "din.slice.read_vec", "smartptr.box_string", "smartptr.rc_string"},
@@ -50,10 +51,19 @@ KFTable == {
      variants |-> {"-"}, kinds |-> {"m", "s"}],
     [id |-> "C15-KF9", outcome |-> "oom",
      parsers |-> {"simdlz77.decompress", "simdlz77.global.decompress", "simdlz77.x1.decompress", "simdlz77.x2.decompress", "simdlz77.x4.decompress", "simdlz77.x8.decompress"},
-     variants |-> {"-"}, kinds |-> {"c", "m"}]
+     variants |-> {"-"}, kinds |-> {"c", "m"}],
+    [id |-> "C15-KF10", outcome |-> "oom",
+     parsers |-> {"simdenc.varint.decode_batch"},
+     variants |-> {"p31"}, kinds |-> {"a", "b", "c", "m", "r", "s", "t"}],
+    [id |-> "C15-KF10", outcome |-> "panic",
+     parsers |-> {"simdenc.varint.decode_batch"},
+     variants |-> {"max"}, kinds |-> {"a", "b", "c", "m", "r", "s", "t"}]
 }
 
-KnownIds == {r.id : r \in KFTable}
+(* the enabled deviations (literal set: tools/sync_known.py removes the ids of findings whose  *)
+(* status became 'fixed'; their rows stay in KFTable as documentation but cover nothing)       *)
+KnownIds == {"C15-KF1", "C15-KF2", "C15-KF3", "C15-KF4", "C15-KF5", "C15-KF6", "C15-KF7", "C15-KF8", "C15-KF9", "C15-KF10"}
+ASSUME KnownIds \subseteq {r.id : r \in KFTable}
 
 (* does deviation id cover outcome class o of batch e of subject subj?  (a finding may   *)
 (* have several rows: one per outcome it shows as)                                      *)
